@@ -19,7 +19,7 @@ package agent
 //   After every step: sleep state, state file, position of the poll activity and the agent's connectivity
 //   (listeners registered + peer link to Y registered) are compared with the specification's post-state.
 //   The only real-time element is the poll window itself; a step that the specification places inside the window and
-//   that the harness could not perform in its first 60 % is an infrastructure failure (t.Fatal), never a verdict.
+//   that the harness could not perform in its first 70 % is an infrastructure failure (t.Fatal), never a verdict.
 
 import (
 	"encoding/json"
@@ -194,7 +194,7 @@ func (r *zzvSPRig) project(want zzvSPProj) zzvSPProj {
 	wait := 5 * time.Second
 	for _, pa := range r.polls {
 		if pa.pc == "inCallback" {
-			wait = r.window * 4 / 10 // stay inside the poll window
+			wait = r.window * 6 / 10 // stay inside the poll window
 		}
 	}
 	var p zzvSPProj
@@ -215,7 +215,7 @@ func (r *zzvSPRig) await(pa *zzvSPPollAct, d time.Duration) string {
 // inWindow fails the run (infrastructure) when a step that must happen inside the poll window comes too late.
 func (r *zzvSPRig) inWindow(what string) {
 	for _, pa := range r.polls {
-		if pa.pc == "inCallback" && time.Since(pa.cbAt) > r.window*6/10 {
+		if pa.pc == "inCallback" && time.Since(pa.cbAt) > r.window*7/10 {
 			r.t.Fatalf("zzv: %s was performed %v after the poll window (%v) began: machine too slow for this schedule",
 				what, time.Since(pa.cbAt), r.window)
 		}
@@ -389,6 +389,19 @@ func TestZZVSleepPollAgent(t *testing.T) {
 			}
 			wp := want.proj()
 			real := r.project(wp)
+			if res == a.Res && zzvJSON(real) != zzvJSON(wp) && wp.Conn && !real.Conn {
+				// inside a running poll window "not (re)connected yet" cannot be told from "too slow": no verdict
+				for _, pa := range r.polls {
+					if pa.pc == "inCallback" {
+						probe := real
+						probe.Conn = true
+						if zzvJSON(probe) == zzvJSON(wp) {
+							t.Fatalf("zzv: the agent's reconnect was not observed within %v of its %v poll window (step %s): "+
+								"machine too slow for this schedule", r.window*6/10, r.window, a.Act)
+						}
+					}
+				}
+			}
 			if res != a.Res || zzvJSON(real) != zzvJSON(wp) {
 				mism++
 				acts := []json.RawMessage{}
